@@ -260,7 +260,7 @@ theorem dec_sctList_exact (bs : Bytes) (v : Val) (r : Bytes) (h : dec tSCTList b
 
 /-! ### the structures with variants: accepted ⇒ RFC value, or the repository's JSON extension (entry type 0x8000)
 
-`ct.TimestampedEntry` carries a third variant `JSONEntry` for `XJSONLogEntryType = 0x8000`, which RFC 6962 does not have; it is
+`ct.TimestampedEntry` carries a third variant `JSONEntry` for entry type `0x8000` (`selector:EntryType,val:32768`), which RFC 6962 does not have; it is
 the only way a value accepted by the codec can fail to be an RFC value (`CtWire.IsJsonTE`). -/
 
 /-- Whatever `tls.Marshal` accepts for `ct.TimestampedEntry` — any Go value, not only the layout of an RFC value — is an RFC
